@@ -169,7 +169,8 @@ def run(ck, P):
             if f.name == "m_thpool_free":
                 # stages after INITED_STARTED run once wait_pool() has returned (order: C06.5): the workers are gone
                 fct = X.facts(f, where) if not isinstance(where, lm.Block) else frozenset()
-                if any(a.startswith("(i == ") and p and a != "(i == %d)" % P.enums.get("INITED_STARTED", -1) for (a, p) in fct):
+                svs_ = {S(e_.lhs) for e_ in f.events() if e_.kind == "assign" and e_.e.get("op") == ">>=" and strip(e_.lhs)["k"] == "var"} or {"i"}
+                if any(a.startswith("(%s == " % sv_) and p and a != "(%s == %d)" % (sv_, P.enums.get("INITED_STARTED", -1)) for (a, p) in fct for sv_ in svs_):
                     continue
             for r in roles:
                 h = held
@@ -364,6 +365,33 @@ def run(ck, P):
           "the task is queued (line %s) after the lazy thread creation that can refuse the submission%s"
           % ([e.line for e in enq], "" if not late else ": add_threads at line %d runs after the enqueue at line %d, and its failure is "
              "returned although the task stays queued and will run" % (late[0][0].line, late[0][1].line)))
+    # no submission once shutdown began: wait_pool walks the thread list without the lock on the assumption that nobody adds a thread (or a
+    # task) after shutdown was requested — a submission accepted during a wait-all drain can spawn a worker nobody joins
+    sn_ = E.get("SHUTDOWN_NO", 0)
+    effs_ = [e for e in add.calls() if e.callee in ("m_queue_enqueue", "add_threads")]
+    okg_ = bool(effs_) and all(has(X.facts(add, e, passed=True), "pool->shutdown", False) or has(X.facts(add, e, passed=True), "(pool->shutdown == %d)" % sn_)
+                               for e in effs_)
+    ck.ob("C06.4-HANDOFF", add.site("refused once shutdown began"), okg_,
+          "m_thpool_add queues a task / grows the pool only for shutdown == SHUTDOWN_NO" if okg_ else
+          "m_thpool_add can queue a task or create a thread while a shutdown is in progress: a worker created during m_thpool_free's drain is not in the "
+          "list being joined — free returns and destroys the pool while that worker (and the accepted task) still run")
+    # lengths are not squeezed into a narrower type on their way to a decision (256 queued tasks are not 0 queued tasks)
+    from props.common import narrowing_casts
+    nar_ = []
+    for f_ in fns.values():
+        for ev_ in f_.events():
+            for y_ in (ev_.e, ev_.rhs if ev_.kind in ("decl", "assign") else None):
+                if y_ is None:
+                    continue
+                for (fr0_, to_, inner_) in narrowing_casts(y_, explicit=True):
+                    if "m_queue_len(" in inner_ or "m_list_len(" in inner_:
+                        nar_.append((f_.name, inner_, fr0_, to_, ev_.line))
+    nar_ += [(fn_, inner_, fr0_, to_, ln_) for (u_, fn_, inner_, fr0_, to_, ln_) in getattr(P, "narrow_returns", [])
+             if u_ == T and ("m_queue_len(" in inner_ or "m_list_len(" in inner_)]
+    ck.ob("C06.4-HANDOFF", "%s:queue and list lengths keep their width" % T, not nar_,
+          "no length is converted to a narrower type" if not nar_ else
+          "%s converts '%s' from '%s' to '%s' (line %d): a backlog whose length is a multiple of the narrower type's range reads as empty — workers sleep "
+          "or exit with tasks queued, and a wait-all free destroys them unrun" % nar_[0])
     fr = fns["m_thpool_free"]
     ck.ob("C06.4-HANDOFF", fr.site("pending queue destroyed"), any(S(e.args[0]) == "&p->tasks" for e in fr.calls("m_queue_free")),
           "m_thpool_free destroys the pending queue", nontrivial=False)
@@ -394,10 +422,11 @@ def run(ck, P):
     want_call = {"INITED_STARTED": "wait_pool", "INITED_COND": "pthread_cond_destroy", "INITED_MUT": "pthread_mutex_destroy",
                  "INITED_TASKS": "m_queue_free", "INITED_THREADS": "m_list_free"}
     okf = vals == sorted(vals, reverse=True)
+    upd = [e for e in fr.events() if e.kind == "assign" and strip(e.lhs)["k"] == "var" and e.e["op"] == ">>="]
+    sv_ = S(upd[0].lhs) if upd else "i"        # the stage variable, whatever it is called
     for o in order:
         evs = [e for e in fr.calls(want_call[o])]
-        okf = okf and bool(evs) and all(has(X.facts(fr, e), "(i == %d)" % E[o]) for e in evs)
-    upd = [e for e in fr.events() if e.kind == "assign" and S(e.lhs) == "i" and e.e["op"] == ">>="]
+        okf = okf and bool(evs) and all(has(X.facts(fr, e), "(%s == %d)" % (sv_, E[o])) for e in evs)
     pf = [e for e in fr.events() if is_free_call(e) and S(e.args[0]) == "p"]
     okf = okf and bool(upd) and len(pf) == 1 and pf[0].block.id not in fr.in_loop_blocks()
     ck.ob("C06.5-JOIN-BEFORE-FREE", fr.site("reverse teardown"), okf, "stage constants descend %s, loop shifts right, pool freed after the loop: %s" % (vals, okf))
